@@ -81,6 +81,8 @@ def _worker(shard):
                     res.append(_real_seq(conn, dict_cursor, ops))
                 elif kind == "reexec":
                     res.append(_real_reexec(conn, payload))
+                elif kind == "pandas":
+                    res.append(_real_pandas(conn, payload))
                 else:
                     res.append(_real_shape(conn, payload))
             except Exception as e:  # an exception where the property promises a value is an observation, not a crash
@@ -149,12 +151,89 @@ def _cases(chk) -> list:
         for names in itertools.product(range(len(NAME_POOL)), repeat=L):
             for nrows in (0, 1, 3):
                 cases.append(("shape", ([NAME_POOL[i][0] for i in names], nrows, [NAME_POOL[i][1] for i in names])))
+    for sql in PANDAS_SQL:
+        cases.append(("pandas", sql))
     # re-executing the same SQL text after the result shape was changed through another cursor
     for ddl in REEXEC_DDL:
         for dict_cursor in (False, True):
             for fetch_first in (False, True):
                 cases.append(("reexec", (ddl, dict_cursor, fetch_first)))
     return cases
+
+
+# value-typed results: fetch_pandas_all must agree with the rows fetchall hands out, for every value type
+PANDAS_SQL = [
+    "select 1 as i, 2.5::double as d, 'x' as s, true as b, 3.25::number(10,2) as n, null as z",
+    "select '2024-02-29'::date as d, '2024-02-29 10:11:12.123456'::timestamp as t, '10:11:12'::time as tm",
+    "select '9999-12-31 23:59:59'::timestamp as far, '1500-01-01'::timestamp as old, '1969-12-31 23:59:59.999999'::timestamp as pre",
+    "select '9999-12-31'::date as fard, '0001-01-01'::date as firstd",
+    "select x, case when x = 1 then null else '9999-12-31'::timestamp end as t from t where x < 3 order by x",
+    "select x, x::varchar as s, (x * 1.5)::double as d from t where x < 0",
+    "select parse_json('{\"a\": 1}') as v, 'aé😀' as u",
+]
+
+
+def _cell(v):
+    import datetime
+    import math
+    try:
+        import pandas as pd
+        if v is pd.NaT:
+            return None
+    except Exception:
+        pass
+    if v is None:
+        return None
+    if isinstance(v, float) and math.isnan(v):
+        return None
+    if hasattr(v, "to_pydatetime"):
+        v = v.to_pydatetime()
+    if hasattr(v, "item") and not isinstance(v, (str, bytes)):
+        try:
+            v = v.item()
+        except Exception:
+            pass
+    if isinstance(v, datetime.datetime):
+        return ("dt", v.replace(tzinfo=None).isoformat())
+    if isinstance(v, (datetime.date, datetime.time)):
+        return ("d", v.isoformat())
+    if isinstance(v, (int, float)) and not isinstance(v, bool):
+        return ("n", float(v))
+    try:
+        from decimal import Decimal
+        if isinstance(v, Decimal):
+            return ("n", float(v))
+    except Exception:
+        pass
+    return ("o", str(v))
+
+
+def _real_pandas(conn, sql):
+    cur = conn.cursor()
+    cur.execute(sql)
+    rows = [[_cell(v) for v in r] for r in cur.fetchall()]
+    rowcount = cur.rowcount
+    cur.execute(sql)
+    pdf = cur.fetch_pandas_all()
+    prow = [[_cell(v) for v in r] for r in pdf.itertuples(index=False, name=None)]
+    return {"rows": rows, "pandas": prow, "rowcount": rowcount, "cols": [str(c) for c in pdf.columns], "desc": [d.name for d in cur.description]}
+
+
+def _check_pandas(chk, sql, real):
+    case = {"kind": "pandas", "sql": sql}
+    chk.case(("pandas", sql))
+    chk.count("pandas")
+    bad = None
+    if "exception" in real:
+        bad = f"raised {real['exception']}"
+    elif real["pandas"] != real["rows"]:
+        bad = f"fetch_pandas_all gives {real['pandas']} but the rows handed out by fetchall are {real['rows']}"
+    elif real["rowcount"] != len(real["rows"]):
+        bad = f"rowcount {real['rowcount']} ≠ {len(real['rows'])} rows"
+    elif real["cols"] != real["desc"]:
+        bad = f"data frame columns {real['cols']} ≠ description names {real['desc']}"
+    if bad:
+        chk.violation(f"`{sql}`: {bad}", case, broken="C05 (fetch_pandas_all and rowcount agree with the rows)")
 
 
 REEXEC_DDL = {
@@ -275,6 +354,8 @@ def _lines(cases):
             lines.append("fetch\trun\t" + enc_list(payload[1]))
         elif kind == "reexec":
             lines.append("fetch\trow\t" + enc_list([enc_str(n) for n in REEXEC_DDL[payload[0]][1]]))
+        elif kind == "pandas":
+            lines.append("fetch\trow\t" + enc_list([enc_str("X")]))
         else:
             lines.append("fetch\trow\t" + enc_list([enc_str(n) for n in payload[2]]))
     return lines
@@ -293,6 +374,8 @@ def run(chk) -> None:
         for (kind, payload), real, reply in zip(shard, rs, ms):
             if kind == "reexec":
                 _check_reexec(chk, payload, real)
+            elif kind == "pandas":
+                _check_pandas(chk, payload, real)
             else:
                 (_check_seq if kind == "seq" else _check_shape)(chk, payload, real, reply)
     chk.samples = [{"ops": s[1][1], "dict": s[1][0]} for s in cases if s[0] == "seq"][200:204] + \
@@ -309,6 +392,8 @@ def replay(chk, case) -> None:
         real = _worker([("seq", payload)])[0]
         reply = common.batch(_lines([("seq", payload)]))[0]
         _check_seq(chk, payload, real, reply)
+    elif case["kind"] == "pandas":
+        _check_pandas(chk, case["sql"], _worker([("pandas", case["sql"])])[0])
     elif case["kind"] == "reexec":
         payload = (case["ddl"], case["dict_cursor"], case["fetch_first"])
         _check_reexec(chk, payload, _worker([("reexec", payload)])[0])
